@@ -24,7 +24,7 @@ from gverif.common import SEED, die, ensure_repo
 from gverif.harness import Run
 from gverif.props import c10_lib as L
 
-QUICK_PICK = 8          # old signatures of the 3-name alphabet sampled in the quick tier
+QUICK_PICK = 20         # old signatures of the 3-name alphabet sampled in the quick tier
 N3 = 2290               # number of legal signatures over {a, b, c}, <= 3 parameters (asserted)
 N2 = 157
 
@@ -195,10 +195,13 @@ def main(tier: str, replay: str | None = None):
         nn = case["nn"]
         r0 = tlc.must(run_tlc("DiffSig_gen.cfg", nn, "pick", (), workers=1))
         t0 = Table(r0, nn)
-        o, n = t0.idx[L.key([dict(zip(("name", "kind", "default"), p)) for p in case["old"]])], t0.idx[L.key([dict(zip(("name", "kind", "default"), p)) for p in case["new"]])]
-        r1 = tlc.must(run_tlc("DiffSig_gen.cfg", nn, "pick", (o,), workers=2))
+        ko, kn = L.key(case["old"]), L.key(case["new"])
+        r1 = tlc.must(run_tlc("DiffSig_gen.cfg", nn, "pick", (t0.idx[ko],), workers=2))
         run.add_tlc(r1)
         tab = Table(r1, nn)
+        o, n = tab.idx[ko], tab.idx[kn]
+        if (o, n) not in tab.exp:
+            die("C10: TLC's signature indexing is not stable between runs; cannot replay")
         exp = tab.expectation(o, n)
         for i in (o, n):
             real, _ = L.cpython_binds(tab.sig[i], tab.names)
